@@ -81,6 +81,11 @@ def _all_sym(n):
     return {f"{i},{ax}": "sym" for i in range(n) for ax in range(3)}
 
 
+def _multi(n, multi_block=0):
+    """one block multigraded in all three directions (two divisions each), the others with symbolic chop flags"""
+    return {f"{i},{ax}": ("multi" if i == multi_block else "sym") for i in range(n) for ax in range(3)}
+
+
 def _axes_sym(n, axes, fixed_block=0):
     """flags symbolic on the listed lattice axes; on the other axes every block gets the same concrete filler chop"""
     sp = {}
@@ -107,6 +112,8 @@ def jobs(tier, seed):
         add("row2", [0, 1], [0, 17], _all_sym(2), regrade=True)
         add("L", [2, 0, 1], [0, 0, 3], _axes_sym(3, [0, 1]), "|sym-axes=[0, 1]", regrade=True)
         add("row2", [1, 0], [0, 5], _all_sym(2))
+        add("row2", [0, 1], [0, 13], _multi(2), "|multigraded")
+        add("row2", [1, 0], [4, 22], _multi(2, 1), "|multigraded")
         add("row2", [0, 1], [0, 13], _all_sym(2))
         add("row2", [0, 1], [7, 22], _all_sym(2))
         add("diag-edge", [0, 1], [0, 0], _all_sym(2))
@@ -128,6 +135,9 @@ def jobs(tier, seed):
             add("row2", [0, 1], [0, r], _all_sym(2))
             add("diag-edge", [1, 0], [0, r], _all_sym(2))
         add("row2", [1, 0], [3, 17], _all_sym(2))
+        for r in range(0, 24, 3):
+            add("row2", [0, 1], [0, r], _multi(2), "|multigraded")
+            add("diag-edge", [1, 0], [r, 0], _multi(2, 1), "|multigraded")
         for r in (0, 6, 17, 21):
             add("row2", [0, 1], [0, r], _all_sym(2), regrade=True)
         for order in ([0, 1, 2], [2, 0, 1]):
